@@ -4508,6 +4508,15 @@ where
           )),
         },
 
+        // a float literal is never equal to an integer item
+        token::Value::FLOAT(_)
+          if matches!(
+            self.state.ctrl,
+            Some(ControlOperator::NE) | Some(ControlOperator::DEFAULT)
+          ) =>
+        {
+          None
+        }
         _ => Some(format!("expected {}, got {:?}", value, i)),
       },
       Value::Float(f) => match value {
@@ -4552,6 +4561,15 @@ where
             f
           )),
         },
+        // an integer literal is never equal to a floating-point item
+        token::Value::INT(_) | token::Value::UINT(_)
+          if matches!(
+            self.state.ctrl,
+            Some(ControlOperator::NE) | Some(ControlOperator::DEFAULT)
+          ) =>
+        {
+          None
+        }
         _ => Some(format!("expected {}, got {:?}", value, f)),
       },
       Value::Text(s) => match value {
